@@ -168,7 +168,7 @@ func drawC11(rt *rapid.T) C11Scenario {
 }
 
 func c11Env(sc *C11Scenario, workers int, sched detsim.SchedConfig) simEnv {
-	args := []string{"--workers", fmt.Sprint(workers), "--no-color", "--log-level", "error"}
+	args := []string{"--workers", fmt.Sprint(workers), "--no-color", "--log-level", "warn"}
 	if sc.Servers == 0 {
 		args = append(args, "--offline")
 	}
@@ -207,6 +207,9 @@ func runC11(t *testing.T, sc C11Scenario, record bool) *detsim.Outcome {
 		out.AddViolation("liveness", "baseline run (--workers 1) did not finish")
 		out.Poisoned = true
 		return out
+	}
+	if os.Getenv("VERIF_DEBUG") != "" {
+		fmt.Printf("=== --workers 1 console ===\n%s\n", base.Stderr)
 	}
 	digest := fnv.New64a()
 	fmt.Fprintf(digest, "%s|%s|%s", base.Stderr, base.JSON, base.Err)
